@@ -23,6 +23,10 @@ OPT_SETS = [
     {"allow_list_edits_when_same_length": False},                   # -ll
     {"allow_key_edits": False, "auto_match_keys": False, "allow_list_edits": False},
 ]
+# every combination of the four build options (the first six above are what the command line can produce, plus one)
+ALL_OPT_SETS = [{k: v for k, v in (("allow_key_edits", a), ("auto_match_keys", b), ("allow_list_edits", c),
+                                    ("allow_list_edits_when_same_length", d)) if not v}
+                for a in (True, False) for b in (True, False) for c in (True, False) for d in (True, False)]
 
 SCALARS = [0, 1, 2, 10, 12, -1, "a", "ab", "abc", "abd", "xbc", "", True, False, None, 1.5, 2.25,
            "hello world", "hello wrld", "1", "True", "None", "0", " "]
@@ -125,7 +129,7 @@ def gen(rng, tier):
     for _ in range(n):
         a = gen_doc(rng)
         b = mutate(rng, a) if rng.random() < 0.8 else gen_doc(rng)
-        o = rng.choice(OPT_SETS)
+        o = rng.choice(OPT_SETS) if rng.random() < 0.6 else rng.choice(ALL_OPT_SETS)
         c = {"f": a, "t": b, "opts": o}
         if rng.random() < 0.35:
             c["f2"] = shuffled(rng, a)
